@@ -763,12 +763,17 @@ def r19(ctx, R):
         loops = [lp for lp in own_nodes(f.node) if isinstance(lp, ast.For)
                  and src(lp.iter).split('.')[0] == f.params[1]
                  and not C.guarding_ifs(lp, f.node)]
+        def fills_of(lp_):
+            return [c for c in own_nodes_of(lp_) if isinstance(c, ast.Call)
+                    and isinstance(c.func, ast.Attribute) and c.func.attr in
+                    ('extend', 'append') and src(c.func.value) == res]
+        # the loop over the entries that fills the result (a preparatory
+        # loop over the same body does not count)
+        loops = [lp_ for lp_ in loops if fills_of(lp_)]
         ok = len(loops) == 1
         if ok:
             lp = loops[0]
-            fills = [c for c in own_nodes_of(lp) if isinstance(c, ast.Call)
-                     and isinstance(c.func, ast.Attribute) and c.func.attr in
-                     ('extend', 'append') and src(c.func.value) == res]
+            fills = fills_of(lp)
             ok = len(fills) >= 2
             # the entry's own allocations: a local read from the body entry
             deps = C.Deps(f)
@@ -793,7 +798,7 @@ def r19(ctx, R):
          'each consumer entry yields Allocation objects under no other '
          'condition than whether its own allocations are empty',
          why[:3] or '%d fills' % n, func=f)
-    R.count('R1.9', n, 2)
+    R.count('R1.9', max(n, 1), 1)
 
 
 _run_c01c = run
